@@ -1,4 +1,4 @@
-import MpsVerif.Proofs.PipelineNext
+import MpsVerif.Proofs.PipelineInc
 /-!
 # C03 — stream pipelines equal their sequential meaning
 
@@ -91,5 +91,78 @@ theorem C03_lazy (ops : List Op) (vals : List Val) (err : Option Err) (orc : Lis
   simp only [build, List.mem_reverse, List.mem_map] at hg
   obtain ⟨op, _, rfl⟩ := hg
   exact ⟨rfl, rfl, rfl⟩
+
+/-- Incremental consumption.  For a chain of one-to-one operators (`map`, `peek`, `accumulate`,
+    `head`, `buffer`, `parmap`), after `k` requests — whatever the oracle lets the worker threads
+    of `buffer`/`parmap` do — the number of source elements pulled is at most the number of
+    answers handed to the consumer (values, plus 1 if the last request raised) plus
+    `slackAll ops` = Σ per-operator constants: `map`/`peek`/`accumulate` 0, `head` 1,
+    `buffer n` n+2, `parmap` 2·concurrency+3.
+    Imported (not proved here): the last two constants are the look-ahead bounds of the thread-backed
+    operators (`lookahead`, the guard of the oracle-driven prefetch in `next`), i.e. C08's
+    `Fifo.C08_parmap_lookahead` for `parmap` and worker + queue + consumer = n+2 for `Buffer`.
+    What is proved here is that these bounds compose additively along the chain and that the
+    ordinary generators add nothing (`head`: one element). -/
+theorem C03_incremental (ops : List Op) (hone : ∀ op ∈ ops, op.oneOne = true)
+    (vals : List Val) (err : Option Err) (orc : List Bool) (k fuel : Nat) :
+    let r := takeK fuel k (build ops) (World.init vals err orc)
+    r.2.1 ≠ some .fuel →
+    r.2.2.2.src.pulled ≤
+      r.1.length + (match r.2.1 with
+        | some x => cnt x
+        | Option.none => 0) + slackAll ops := by
+  intro r h
+  obtain ⟨i0, r0, t0⟩ := build_inv ops hone vals err orc
+  obtain ⟨a, b, c, d⟩ := takeK_inv k fuel (build ops) (World.init vals err orc) i0 r0 h
+  have := pulled_le _ _ a b
+  rw [d, t0, stageSlack_congr _ _ c, stageSlack_build, Nat.zero_add] at this
+  exact this
+
+/-- … in particular: taking the first `k` outputs pulls at most `k + slackAll ops` source elements. -/
+theorem C03_incremental_k (ops : List Op) (hone : ∀ op ∈ ops, op.oneOne = true)
+    (vals : List Val) (err : Option Err) (orc : List Bool) (k fuel : Nat) :
+    let r := takeK fuel k (build ops) (World.init vals err orc)
+    r.2.1 = Option.none → r.1.length = k ∧ r.2.2.2.src.pulled ≤ k + slackAll ops := by
+  intro r h
+  have hl := takeK_len k fuel _ _ h
+  have := C03_incremental ops hone vals err orc k fuel (by rw [h]; simp)
+  refine ⟨hl, ?_⟩
+  have e : (match (takeK fuel k (build ops) (World.init vals err orc)).2.1 with
+      | some x => cnt x
+      | Option.none => 0) = 0 := by rw [h]
+  rw [e, hl] at this
+  exact this
+
+/-! ### non-vacuity -/
+
+/-- a concrete run: `range(7).map(+1).batch(3).unbatch().head(4)` consumed to exhaustion -/
+example :
+    let ops : List Op := [.map (Fn.eval (.add 1)), .batch 3, .unbatch, .head 4]
+    let vals : List Val := [.int 0, .int 1, .int 2, .int 3, .int 4, .int 5, .int 6]
+    let r := takeK 50 9 (build ops) (World.init vals Option.none [])
+    r.1 = [.int 1, .int 2, .int 3, .int 4] ∧ r.2.1 = some .done ∧ r.2.2.2.src.pulled = 6 ∧
+    semAll ops ⟨vals, Option.none⟩ = ⟨[.int 1, .int 2, .int 3, .int 4], Option.none⟩ := by
+  decide
+
+/-- errors are positional: `map(raise on multiples of 3).head(2)` over `1,2,3` (and a source that
+    would fail after that) delivers `1, 2`; then `head` pulls the third element to find out that it
+    is done, `map` raises on it, and that error is what the consumer gets (the code's behaviour,
+    see `sem (.head n)`); the source's own error is never reached -/
+example :
+    let ops : List Op := [.map (Fn.eval (.raiseIfMul 3 1)), .head 2]
+    let vals : List Val := [.int 1, .int 2, .int 3]
+    semAll ops ⟨vals, some ⟨2, 0⟩⟩ = ⟨[.int 1, .int 2], some ⟨1, 3⟩⟩ ∧
+    (takeK 50 5 (build ops) (World.init vals (some ⟨2, 0⟩) [])).2.1 = some (.err ⟨1, 3⟩) := by
+  decide
+
+/-- the incremental bound is attained: `buffer(1).map(+1).head(5)` over 12 elements with the
+    always-prefetch oracle has pulled 9 = 5 handed + (3 + 0 + 1) when the consumer sees the end -/
+example :
+    let ops : List Op := [.buffer 1, .map (Fn.eval (.add 1)), .head 5]
+    let vals : List Val := (List.range 12).map (fun (i : Nat) => Val.int i)
+    let r := takeK 100 6 (build ops) (World.init vals Option.none (List.replicate 40 true))
+    (∀ op ∈ ops, op.oneOne = true) ∧ r.1.length = 5 ∧ r.2.1 = some .done ∧
+    r.2.2.2.src.pulled = 9 ∧ slackAll ops = 4 := by
+  decide
 
 end Pipeline
